@@ -445,15 +445,16 @@ theorem sheets_in_order_xlsx (rels : List (String × String)) (q : String → St
       .ok (⟨sheets.map (fun s => ⟨s.name, s.kind, s.vis⟩), names.map dnValue, (pr.map date1904Attr).getD false⟩,
            sheets.map (fun s => xlsxPath s.target.toList)) := by
   unfold readWorkbookXlsx xlsxLoop workbookEvents
-  have e1 : ∀ (n : String), n ≠ "extLst" → n ≠ "sheet" → n ≠ "workbookPr" → n ≠ "definedName" →
+  have e1 : ∀ (n : String), n ∈ xlsxNames → n ≠ "extLst" → n ≠ "sheet" → n ≠ "workbookPr" → n ≠ "definedName" →
       ∀ (a : List (String × String)) (rest : List Ev) (st : XlsxSt), st.cur = none → st.skip = none →
       xlsxLoopWith cfgNow rels (.start (q n) a :: rest) st = xlsxLoopWith cfgNow rels rest st :=
-    fun n h0 h1 h2 h3 a rest st hc hk =>
-      loop_start_skip _ _ _ _ _ _ hc hk (by rw [hq]; exact h0) (by rw [hq]; exact h1) (by rw [pm_q q hq]; simp [h2]) (by rw [hq]; exact h3)
-  have e4 : ∀ (n : String), n ≠ "workbook" → ∀ (rest : List Ev) (st : XlsxSt), st.cur = none → st.skip = none →
+    fun n hm h0 h1 h2 h3 a rest st hc hk =>
+      loop_start_skip _ _ _ _ _ _ hc hk (by rw [hq n hm]; exact h0) (by rw [hq n hm]; exact h1)
+        (by rw [pm_q q hq n hm]; simp [h2]) (by rw [hq n hm]; exact h3)
+  have e4 : ∀ (n : String), n ∈ xlsxNames → n ≠ "workbook" → ∀ (rest : List Ev) (st : XlsxSt), st.cur = none → st.skip = none →
       xlsxLoopWith cfgNow rels (.end_ (q n) :: rest) st = xlsxLoopWith cfgNow rels rest st :=
-    fun n hn rest st hc hk => loop_end_skip _ _ _ _ _ hc hk (by rw [hq]; exact hn)
-  rw [e1 "workbook" (by decide) (by decide) (by decide) (by decide) _ _ _ rfl rfl]
+    fun n hm hn rest st hc hk => loop_end_skip _ _ _ _ _ hc hk (by rw [hq n hm]; exact hn)
+  rw [e1 "workbook" (by decide) (by decide) (by decide) (by decide) (by decide) _ _ _ rfl rfl]
   -- the optional <workbookPr/>
   have hpr : ∀ (rest : List Ev),
       xlsxLoopWith cfgNow rels (prEvents q pr ++ rest) ⟨[], [], false, none, none⟩ =
@@ -463,8 +464,9 @@ theorem sheets_in_order_xlsx (rels : List (String × String)) (q : String → St
     | none => rfl
     | some attrs =>
       simp only [prEvents, List.cons_append, List.nil_append, Option.map_some, Option.getD_some]
-      rw [loop_start_pr _ _ _ _ _ _ _ _ (by rw [hq]; decide) (by rw [hq]; decide) (by rw [pm_q q hq]; decide)]
-      rw [e4 "workbookPr" (by decide) _ _ rfl rfl]
+      rw [loop_start_pr _ _ _ _ _ _ _ _ (by rw [hq "workbookPr" (by decide)]; decide) (by rw [hq "workbookPr" (by decide)]; decide)
+        (by rw [pm_q q hq "workbookPr" (by decide)]; decide)]
+      rw [e4 "workbookPr" (by decide) (by decide) _ _ rfl rfl]
       have : cfgNow.keepFlag = true := rfl
       rw [this, date1904Upd_false]
   -- the optional <extLst>…</extLst>: skipped whatever it holds
@@ -476,17 +478,17 @@ theorem sheets_in_order_xlsx (rels : List (String × String)) (q : String → St
     | none => rfl
     | some body =>
       simp only [extEvents, List.cons_append, List.append_assoc, List.nil_append]
-      rw [loop_start_ext _ _ rfl _ _ _ _ _ _ (hq "extLst")]
+      rw [loop_start_ext _ _ rfl _ _ _ _ _ _ (hq "extLst" (by decide))]
       rw [loop_skip_body _ _ (q "extLst") 0 body (hext body hE) _ _ rfl, loop_skip_end]
   have h0 : ({} : XlsxSt) = ⟨[], [], false, none, none⟩ := rfl
   obtain ⟨hg0, hg1, hg2, hg3, hg4⟩ := hg
   rw [h0, loop_inert rels g.g0 hg0 _ _ rfl rfl, hpr, loop_inert rels g.g1 hg1 _ _ rfl rfl,
-    e1 "sheets" (by decide) (by decide) (by decide) (by decide) _ _ _ rfl rfl,
-    loop_sheets _ _ q hq ridKey hk sheets hs, e4 "sheets" (by decide) _ _ rfl rfl, loop_inert rels g.g2 hg2 _ _ rfl rfl,
-    e1 "definedNames" (by decide) (by decide) (by decide) (by decide) _ _ _ rfl rfl,
-    loop_names _ _ q hq (by rw [pm_q q hq]; decide) rfl, e4 "definedNames" (by decide) _ _ rfl rfl,
+    e1 "sheets" (by decide) (by decide) (by decide) (by decide) (by decide) _ _ _ rfl rfl,
+    loop_sheets _ _ q hq ridKey hk sheets hs, e4 "sheets" (by decide) (by decide) _ _ rfl rfl, loop_inert rels g.g2 hg2 _ _ rfl rfl,
+    e1 "definedNames" (by decide) (by decide) (by decide) (by decide) (by decide) _ _ _ rfl rfl,
+    loop_names _ _ q hq (by rw [pm_q q hq "definedName" (by decide)]; decide) rfl, e4 "definedNames" (by decide) (by decide) _ _ rfl rfl,
     loop_inert rels g.g3 hg3 _ _ rfl rfl, hx, loop_inert rels g.g4 hg4 _ _ rfl rfl,
-    loop_end_workbook _ _ _ _ _ rfl rfl (hq "workbook")]
+    loop_end_workbook _ _ _ _ _ rfl rfl (hq "workbook" (by decide))]
   simp [xlsxFinish, xsheetDecoded, List.map_map, Function.comp_def]
 
 /-- the hypotheses of `sheets_in_order_xlsx` are satisfiable: prefix `x:`, `rel:id`, a hidden chart sheet and a
@@ -499,6 +501,27 @@ example :
         [("n", [(false, "1<2"), (true, "&\"x\"")])]) =
       .ok (⟨[⟨"A & <B>", .chartSheet, .hidden⟩, ⟨"😀", .macroSheet, .veryHidden⟩], [("n", "1<2&\"x\"")], true⟩,
            ["xl/chartsheets/sheet1.xml".toList, "xl/macrosheets/sheet2.xml".toList]) := by
+  decide
+
+/-- the hypotheses on the name qualifier and on the relationship-id attribute are satisfiable without a prefix
+    (`q = id`: what Excel writes), with the prefix `x:`, and with the relationship prefixes `r`, `relationships`,
+    `rel` — and even with a prefix literally named `id` (`id:id`), while the declaration `xmlns:id` of that prefix
+    is NOT taken for the relationship id (fix f69fe90, finding C16-f) -/
+example : QOk id ∧ QOk (fun s => "x:" ++ s) ∧ ridKeyOk "r:id" ∧ ridKeyOk "relationships:id" ∧ ridKeyOk "rel:id" ∧
+    ridKeyOk "id:id" ∧ ¬ ridKeyOk "xmlns:id" := by
+  unfold ridKeyOk
+  refine ⟨?_, ?_, by decide, by decide, by decide, by decide, by decide⟩ <;>
+    (intro n hn; simp [xlsxNames] at hn; rcases hn with rfl | rfl | rfl | rfl | rfl | rfl | rfl <;> decide)
+
+/-- finding C16-f as a concrete run: every `<sheet>` declares the relationships namespace itself under the prefix `id`;
+    the attribute list is `name, sheetId, xmlns:id, id:id` and the sheet is read through `id:id` -/
+example :
+    readWorkbookXlsx d22Rels
+      [.start "workbook" [], .start "sheets" [],
+       .start "sheet" [("name", "S1"), ("sheetId", "1"),
+                       ("xmlns:id", "http://schemas.openxmlformats.org/officeDocument/2006/relationships"), ("id:id", "rId1")],
+       .end_ "sheet", .end_ "sheets", .end_ "workbook"] =
+      .ok (⟨[⟨"S1", .workSheet, .visible⟩], [], false⟩, ["xl/worksheets/sheet1.xml".toList]) := by
   decide
 
 /-- **xlsx: defined names in document order; text and CDATA contribute alike.** The value reported for a name is
